@@ -29,6 +29,7 @@ fn main() {
         "treecheck" => checks::treecheck(&args[2..]),
         "wirecheck" => checks::wirecheck(&args[2..]),
         "foreign" => checks::foreign(&args[2..]),
+        "merkle" => checks::merkle(&args[2..]),
         x => {
             eprintln!("unknown subcommand {x}");
             std::process::exit(2);
